@@ -152,6 +152,14 @@ func runC12(c *ctx) {
 				hdr.Set("Accept", pick(r, []string{"*/*", "application/json, text/plain, */*", "text/plain, */*;q=0.8", "TEXT/HTML", " text/html ;q=0.9", "application/xhtml+xml,text/html;q=0.9,*/*;q=0.8",
 					"text/htmlx", "text/*", "image/avif,image/webp,*/*", "application/json;q=0.9,text/html;q=0.1", ""}))
 			}
+			if r.chance(1, 6) { // a CORS preflight (all three markers are the client's to choose): no cookie, no session - it is an unauthenticated request like any other
+				method = "OPTIONS"
+				hdr.Set("Origin", "https://spa.example")
+				hdr.Set("Access-Control-Request-Method", pick(r, []string{"POST", "GET", "DELETE"}))
+				if r.chance(1, 2) {
+					hdr.Set("Access-Control-Request-Headers", "authorization, content-type")
+				}
+			}
 			referer := ""
 			if r.chance(1, 2) {
 				referer = "http://wonderwall" + prefix + "/some/page?y=2"
